@@ -1,4 +1,6 @@
 import EpgVerif.Props.C02
+import EpgVerif.Props.C02Run
+import EpgVerif.Tie.DiffSites
 open EpgVerif.Props.C02
 #print axioms coeff_hasDerivAt
 #print axioms relaxation_defined
@@ -12,3 +14,8 @@ open EpgVerif.Props.C02
 #print axioms scal_step
 #print axioms T_partial_exact
 #print axioms E_partial_exact
+#print axioms step_invariant
+#print axioms jacobian_exact
+#print axioms famT
+#print axioms famE
+#print axioms EpgVerif.Tie.DiffSites.sites_as_modelled
